@@ -78,6 +78,7 @@ type Op struct {
 	WaitOpen   []uint32 // GOAWAY: wait until the peer has opened / promised all these streams
 	Inc        uint32   // OpWU increment
 	Edge       int      // >0: pad the field list so that the encoded block is (receiver's MAX_FRAME_SIZE - (Edge-1)) bytes long
+	Late       bool     // scenario neg-window: sent after the receiver has lowered INITIAL_WINDOW_SIZE
 	Phase      int
 }
 
@@ -120,6 +121,8 @@ type Change struct {
 	// probe only: lower without draining, once exactly WaitRecv payload bytes have been received
 	NoDrain  bool
 	WaitRecv int64
+	// with NoDrain: wait (without granting anything) until everything sent so far has been delivered
+	WaitDelivered bool
 }
 
 type Phase struct {
@@ -265,7 +268,7 @@ func pick(rng *rand.Rand, xs ...string) string { return xs[rng.Intn(len(xs))] }
 // remaining cases draw everything at random, which can produce the same shapes).
 var Scenarios = map[string][]string{
 	"C08": {"resplit", "slowdest", "connlimited", "bighdr", "earlygrant", "goaway", "", ""},
-	"C09": {"bidi", "raise-queued-end", "edge-size", "connlimited", "exact-heavy", "dup-settings", "earlygrant", ""},
+	"C09": {"bidi", "raise-queued-end", "edge-size", "connlimited", "exact-heavy", "dup-settings", "earlygrant", "neg-window", ""},
 }
 
 // Gen draws a session plan. All choices come from rng.
@@ -292,6 +295,8 @@ func Gen(rng *rand.Rand, pf Profile, scn string) *Plan {
 	case "backlog":
 		K, nPh = 1, 1
 	case "raise-queued-end":
+		K, nPh = 1+rng.Intn(2), 2
+	case "neg-window":
 		K, nPh = 1+rng.Intn(2), 2
 	case "bighdr":
 		side = 0 // the client connection is the in-memory one: its capacity and read pace are ours
@@ -328,6 +333,10 @@ func Gen(rng *rand.Rand, pf Profile, scn string) *Plan {
 		case "exact-heavy":
 			if e == side {
 				cls = "default"
+			}
+		case "neg-window":
+			if e == side {
+				cls = "negwin"
 			}
 		case "bighdr":
 			if e != side {
@@ -376,6 +385,9 @@ func Gen(rng *rand.Rand, pf Profile, scn string) *Plan {
 			v = []int64{100, 100, int64(2 + rng.Intn(2000))}[rng.Intn(3)]
 		case "default":
 			v = 65535
+		case "negwin":
+			// a few thousand bytes, most of which are used before INITIAL_WINDOW_SIZE is lowered below them
+			v = int64(2000 + rng.Intn(3000))
 		case "connlimited":
 			// stream windows ample from the start (the final ample-credit step then grants nothing
 			// per stream); only the connection window, opened by stream-0 WINDOW_UPDATEs alone, limits
@@ -408,7 +420,14 @@ func Gen(rng *rand.Rand, pf Profile, scn string) *Plan {
 			if c09 {
 				lim = 60
 			}
-			if scn == "raise-queued-end" && e == side && ph == 0 {
+			if scn == "neg-window" && e == side && ph == 0 {
+				// everything sent in phase 0 has been delivered and not been credited back; the new value
+				// is below it, so the stream windows become negative (RFC 7540 6.9.2)
+				nv := int64(1 + rng.Intn(int(v)/8))
+				p.addChange(ph, Change{E: e, ID: http2.SettingInitialWindowSize, Val: uint32(nv), Lower: true, NoDrain: true, WaitDelivered: true}, nPh)
+				v = nv
+				lower = true
+			} else if scn == "raise-queued-end" && e == side && ph == 0 {
 				// the whole stream incl. END_STREAM is queued behind the tiny stream window; the receiver
 				// then opens it by raising INITIAL_WINDOW_SIZE (no WINDOW_UPDATE)
 				nv := int64(1 << 20)
@@ -592,6 +611,23 @@ func Gen(rng *rand.Rand, pf Profile, scn string) *Plan {
 			if budget < 262144/K {
 				budget = 262144 / K
 			}
+		}
+		if scn == "neg-window" && 1-e == side {
+			// first part: 50-100 % of the receiver's stream window, delivered before the lowering;
+			// late part: sent afterwards, queued in the relay behind the negative window
+			rem := int(iws[side][0]) * (50 + rng.Intn(51)) / 100
+			for rem > 0 {
+				sz := 1 + rng.Intn(600)
+				if sz > rem {
+					sz = rem
+				}
+				rem -= sz
+				ops = append(ops, &Op{K: OpData, T: t, N: sz, Pad: -1})
+			}
+			for i := 5 + rng.Intn(8); i > 0; i-- {
+				ops = append(ops, &Op{K: OpData, T: t, N: 1 + rng.Intn(300), Pad: -1, Late: true})
+			}
+			return ops, false
 		}
 		big := resplit == 1-e
 		if big {
@@ -979,6 +1015,28 @@ func Gen(rng *rand.Rand, pf Profile, scn string) *Plan {
 			ppPhase[k] = 0
 		}
 	}
+	if scn == "neg-window" {
+		for e2, list := range [2][]*Op{cl, sv} {
+			late := map[int]bool{}
+			for _, o := range list {
+				o.Phase = 0
+				if 1-e2 == side && o.K < OpSettings {
+					if o.Late {
+						late[o.T] = true
+					}
+					if late[o.T] {
+						o.Phase = 1
+					}
+				}
+			}
+		}
+		for k := range openPhase {
+			openPhase[k] = 0
+		}
+		for k := range ppPhase {
+			ppPhase[k] = 0
+		}
+	}
 	// client ops on promised streams
 	for _, sp := range sps {
 		for j, cops := range sp.clPush {
@@ -1148,6 +1206,12 @@ func Gen(rng *rand.Rand, pf Profile, scn string) *Plan {
 			if scn == "bidi" || ((scn == "backlog" || scn == "raise-queued-end") && x == side) {
 				ns = 0 // nothing is granted while the scripts run
 			}
+			if scn == "neg-window" && x == side {
+				ns = 0
+				if phi == 1 {
+					ns = 2 + rng.Intn(3) // partial repayments of the deficit
+				}
+			}
 			var steps []Step
 			for i := 0; i < ns && n > 0; i++ {
 				st := Step{After: rng.Intn(n + 1), Act: "wu", Rep: 1}
@@ -1176,6 +1240,11 @@ func Gen(rng *rand.Rand, pf Profile, scn string) *Plan {
 					// back in one large grant, let the sender's next frames arrive, then open the gate
 					st.Act = "gated"
 				}
+				if scn == "neg-window" && x == side {
+					// a stream-level grant that does not exceed the deficit of the most negative stream
+					// window (Inc = per mille of the deficit): the window stays closed
+					st = Step{After: n/3 + rng.Intn(n-n/3+1), Act: "deficit", Inc: uint32(100 + rng.Intn(901)), Rep: 1}
+				}
 				if p.WinClass[x] == "connlimited" {
 					st.S = 0 // connection-level credit only
 					if st.Inc > 70000 {
@@ -1200,7 +1269,7 @@ func Gen(rng *rand.Rand, pf Profile, scn string) *Plan {
 			if x == resplit && phi == 0 {
 				phs.EndAmple[x] = false
 			}
-			if scn == "raise-queued-end" && x == side && phi == 0 {
+			if (scn == "raise-queued-end" || scn == "neg-window") && x == side && phi == 0 {
 				phs.EndAmple[x], phs.EndExact[x] = false, false
 			}
 			if scn == "exact-heavy" && x == side {
